@@ -318,6 +318,7 @@ def run_stream(case, acc):
     policy = H.TablePolicy({'poll#0': [['close', 1000, 'app-close']]}) if closing else None
     run = H.drive(w, ws_kwargs=dict(compress=True) if z else None, connect_kwargs=dict(ping_rate=0), policy=policy)
     acc.count2('oracle', 'violation_runs_judged')
+    acc.executed()
     if closing:
         acc.count2('oracle', 'violation_while_client_closing_runs')
     key, detail = judge_violation_run(run, w, exp, pings, closing)
@@ -457,6 +458,7 @@ def one_header(case, acc, b0, b1, length, infrag, z):
     stream = pre + hdr + body
     w = H.World(H.hs_server([('raw', stream), ('eof',)], HS_DEFLATE if z else HS_PLAIN))
     run = H.drive(w, ws_kwargs=dict(compress=True) if z else None, connect_kwargs=dict(ping_rate=0))
+    acc.executed()
     evs = [e for e in run.events if e.name != 'poll']
     names = [e.name for e in evs]
     npe = names.count('protocol_error')
